@@ -328,6 +328,12 @@ func (x *Exec) eqValue(a, b Value) string {
 			return x.isNil(a)
 		}
 		bi := x.asIface(b, av.Typ)
+		if bi.Tag == "0" {
+			return eq(av.Tag, "0") // comparison with nil: the dynamic type decides
+		}
+		if av.Tag == "0" {
+			return eq(bi.Tag, "0")
+		}
 		return and(eq(av.Tag, bi.Tag), eq(av.Ref, bi.Ref))
 	case SliceV:
 		return x.isNil(a)
@@ -680,6 +686,20 @@ func (x *Exec) mapValLeaf(mt *types.Map, sub, sort string) *LeafInfo {
 	return l
 }
 
+// mapValWf: pointer-valued maps hold nil or allocated objects.
+func (x *Exec) mapValWf(mt *types.Map, l *LeafInfo, name string, st *State) {
+	if x.wfDone[name] || st.Epoch < 0 {
+		return
+	}
+	if !(strings.HasPrefix(name, "L.") || strings.HasPrefix(name, "Hc.") || strings.HasPrefix(name, "Ha.") || strings.HasPrefix(name, "Hh.") || strings.HasPrefix(name, "Hn.")) {
+		return
+	}
+	x.wfDone[name] = true
+	m, k := x.em.fresh("wfm"), x.em.fresh("wfk")
+	x.em.items = append(x.em.items, item{line: fmt.Sprintf("(assert (forall ((%s Int) (%s %s)) (! (and (<= 0 (select (select %s %s) %s)) (<= (select (select %s %s) %s) %s)) :pattern ((select (select %s %s) %s)))))",
+		m, k, x.mapKeySort(mt), name, m, k, name, m, k, st.Frontier, name, m, k)})
+}
+
 func (x *Exec) mapLoadVal(st *State, mt *types.Map, m, k string, t types.Type, sub string) Value {
 	t = types.Unalias(t)
 	switch u := t.Underlying().(type) {
@@ -691,6 +711,7 @@ func (x *Exec) mapLoadVal(st *State, mt *types.Map, m, k string, t types.Type, s
 		return r
 	case *types.Pointer:
 		l := x.mapValLeaf(mt, sub, "Int")
+		x.mapValWf(mt, l, x.heapGet(st, l), st)
 		term := x.em.define("mv", "Int", "(select (select "+x.heapGet(st, l)+" "+m+") "+k+")")
 		x.em.assume(fmt.Sprintf("(and (<= 0 %s) (<= %s %s))", term, term, st.Frontier))
 		return Ptr{Base: term, Root: u.Elem()}
@@ -1069,6 +1090,17 @@ func (x *Exec) setGhost(st *State, name string, v Value) {
 	cur := x.heapGet(st, l)
 	g := x.P.specs.Ghosts[name]
 	gt := x.P.ghostType(g.Type)
+	if s, ok := v.(Scalar); ok && s.T == "$empty" {
+		// the everywhere-false / everywhere-zero map
+		if gt.Key == nil || gt.Val.Key != nil {
+			x.fail("empty is only defined for one-level ghost maps")
+		}
+		zero := "false"
+		if !isBool(gt.Val.Base) {
+			zero = x.term(x.zeroValue(gt.Val.Base))
+		}
+		v = GhostArr{T: "((as const " + gt.Sort() + ") " + zero + ")", Sort: gt.Sort(), Typ: gt}
+	}
 	if gt.Key == nil {
 		v = x.typed(v, gt.Base)
 	}
